@@ -936,7 +936,6 @@ func (bc *Blockchain) Reset(height uint32) error {
 	if bc.isRunning.Load().(bool) {
 		return errors.New("can't reset state of the running blockchain")
 	}
-	bc.dao.PutStateSyncPoint(height)
 	return bc.resetStateInternal(height, none)
 }
 
@@ -974,6 +973,9 @@ func (bc *Blockchain) resetStateInternal(height uint32, stage stateChangeStage) 
 		if bc.config.RemoveUntraceableBlocks && currHeight >= uint32(mtb) {
 			return fmt.Errorf("RemoveUntraceableBlocks is enabled, a necessary batch of traceable blocks has already been removed")
 		}
+		// The reset really starts here (a refused or no-op one leaves nothing
+		// behind); the point reaches the DB with the first stage's batch.
+		bc.dao.PutStateSyncPoint(height)
 	}
 
 	// Retrieve necessary state before the DB modification.
